@@ -3,7 +3,8 @@ C01 - a run never aborts.  Decides (DESIGN.md section 3, C01):
   R01.1 no exception from the curated sources T1/T2/T3 can leave a run phase entry
   R01.2 the parse barrier (unparsable file -> reported, None, next module)
   R01.3 barrier census: the four documented catch-alls are shaped as barriers
-  R01.4 while loops without an exit of their own make progress (narrow non-termination rule; sa/progress.py)
+  R01.4 while loops without an exit of their own make progress; a loop that scans a text from a position moves the position on every way round
+        (narrow non-termination rules; sa/progress.py)
   R01.5 docstrings are made UTF-8 encodable where they enter the model (lone surrogates)
   R01.6 the class of an object looked up by a source-derived name is tested, not asserted
   R01.7 module typestate: UNPROCESSED -> PROCESSING is only taken under a test of the state made after the last nested processing call
